@@ -1,6 +1,7 @@
 package checks
 
 import (
+	"sort"
 	"fmt"
 	"reflect"
 	"strings"
@@ -104,7 +105,13 @@ func explicitSpelling(s string) string {
 }
 
 // renderNode prints a parsed pattern node as a Go expression (package pattern).
-func renderNode(n pattern.Node) string {
+func renderNode(n pattern.Node) string { return renderNodeQ(n, "", "c09B") }
+
+// renderNodeQ prints a pattern node as a Go expression; q qualifies the
+// pattern package's identifiers ("" inside package pattern, "pattern."
+// elsewhere) and bfn names the helper that builds Binding values (their
+// index is unexported).
+func renderNodeQ(n pattern.Node, q, bfn string) string {
 	if n == nil {
 		return "nil"
 	}
@@ -112,23 +119,29 @@ func renderNode(n pattern.Node) string {
 	t := v.Type()
 	switch x := n.(type) {
 	case pattern.String:
-		return fmt.Sprintf("String(%q)", string(x))
+		return fmt.Sprintf("%sString(%q)", q, string(x))
 	case pattern.Token:
-		return fmt.Sprintf("Token(%d)", int(x))
+		return fmt.Sprintf("%sToken(%d)", q, int(x))
+	case pattern.IndexSymbol:
+		return fmt.Sprintf("%sIndexSymbol{Path: %q, Type: %q, Ident: %q}", q, x.Path, x.Type, x.Ident)
 	case pattern.Binding:
 		// read the unexported index
-		f := v.FieldByName("idx")
 		p := reflect.New(t).Elem()
 		p.Set(v)
 		idx := *(*int)(unsafe.Pointer(p.FieldByName("idx").UnsafeAddr()))
-		_ = f
-		return fmt.Sprintf("c09B(%q, %d, %s)", x.Name, idx, renderNode(x.Node))
+		return fmt.Sprintf("%s(%q, %d, %s)", bfn, x.Name, idx, renderNodeQ(x.Node, q, bfn))
 	case pattern.Or:
 		var parts []string
 		for _, c := range x.Nodes {
-			parts = append(parts, renderNode(c))
+			parts = append(parts, renderNodeQ(c, q, bfn))
 		}
-		return "Or{Nodes: []Node{" + strings.Join(parts, ", ") + "}}"
+		return q + "Or{Nodes: []" + q + "Node{" + strings.Join(parts, ", ") + "}}"
+	case pattern.And:
+		var parts []string
+		for _, c := range x.Nodes {
+			parts = append(parts, renderNodeQ(c, q, bfn))
+		}
+		return q + "And{Nodes: []" + q + "Node{" + strings.Join(parts, ", ") + "}}"
 	}
 	if t.Kind() != reflect.Struct {
 		panic(fmt.Sprintf("renderNode: %T", n))
@@ -142,9 +155,32 @@ func renderNode(n pattern.Node) string {
 		if fv.IsNil() {
 			continue
 		}
-		parts = append(parts, fmt.Sprintf("%s: %s", t.Field(i).Name, renderNode(fv.Interface().(pattern.Node))))
+		parts = append(parts, fmt.Sprintf("%s: %s", t.Field(i).Name, renderNodeQ(fv.Interface().(pattern.Node), q, bfn)))
 	}
-	return t.Name() + "{" + strings.Join(parts, ", ") + "}"
+	return q + t.Name() + "{" + strings.Join(parts, ", ") + "}"
+}
+
+// renderFullPattern prints a parsed Pattern with all the fields the
+// pre-filter reads (entry nodes, symbols pattern, root call symbols), for a
+// package other than pattern.
+func renderFullPattern(p pattern.Pattern, bfn string) string {
+	var names, kinds, roots []string
+	for _, b := range p.Bindings {
+		names = append(names, fmt.Sprintf("%q", b))
+	}
+	for _, n := range p.EntryNodes {
+		kinds = append(kinds, fmt.Sprintf("(%s)(nil)", reflect.TypeOf(n).String()))
+	}
+	sort.Strings(kinds)
+	for _, r := range p.RootCallSymbols {
+		roots = append(roots, renderNodeQ(r, "pattern.", bfn))
+	}
+	rootSyms := "nil"
+	if p.RootCallSymbols != nil {
+		rootSyms = "[]pattern.IndexSymbol{" + strings.Join(roots, ", ") + "}"
+	}
+	return fmt.Sprintf("pattern.Pattern{\n\t\tRoot: %s,\n\t\tBindings: []string{%s},\n\t\tEntryNodes: []ast.Node{%s},\n\t\tSymbolsPattern: %s,\n\t\tRootCallSymbols: %s,\n\t}",
+		renderNodeQ(p.Root, "pattern.", bfn), strings.Join(names, ", "), strings.Join(kinds, ", "), renderNodeQ(p.SymbolsPattern, "pattern.", bfn), rootSyms)
 }
 
 func renderPattern(p pattern.Pattern) string {
